@@ -58,10 +58,20 @@ extern "C" void harness_cancel(void) {
   VF_ASSERT(impl->taskInfos.empty() && impl->ruleInfosToScan.empty() && impl->inputRequests.empty() && impl->finishedInputRequests.empty() && impl->readyTaskInfos.empty() && impl->finishedTaskInfos.empty(),
             "all queues and the task table are empty");
   VF_ASSERT(!g_R[0]->isInProgress() && !g_R[1]->isInProgress() && !W.isInProgress() && !S.isScanning(), "no rule is left in progress or scanning");
-  VF_ASSERT(g_R[0]->result.builtAt == B[0] && g_R[1]->result.builtAt == B[1] && W.result.builtAt == B[2] && S.result.builtAt == BS, "no result is marked as built in the cancelled build");
+  VF_ASSERT(g_R[0]->result.builtAt != E && g_R[1]->result.builtAt != E && W.result.builtAt != E && S.result.builtAt == BS, "no result is marked as built in the cancelled build (a rule that was only being scanned keeps its record)");
   VF_ASSERT(!g_R[0]->isComplete(impl) && !g_R[1]->isComplete(impl) && !W.isComplete(impl), "no cancelled rule counts as complete");
   VF_ASSERT(g_createTask == 0 && g_status[(int)Rule::StatusKind::IsComplete] == 0, "cancellation runs nothing and completes nothing");
-#if VF_NEXT
+#if VF_NEXT == 2
+  // X5: the NEXT build runs every rule whose task was cancelled: such a rule's dependency list was cleared when its task started, so its old
+  // value must not be judged up to date by whatever part of the list had been re-recorded (here: nothing) - whatever the rule says about validity
+  impl->currentEpoch = E + 1;
+  for (int i = 0; i < 3; i++) {
+    RuleInfo& X = i < 2 ? *g_R[i] : W;
+    X.result.signature = X.rule->signature;
+    bool r = impl->scanRule(X);
+    VF_ASSERT(r && (int)X.state == 2, "a rule whose task was cancelled is run again by the next build");
+  }
+#elif VF_NEXT
   // X4: the NEXT build judges a rule that was merely being scanned when the build was cancelled exactly as scanRule judges any rule
   // with that stored result (C01-O1's table): the cancelled build leaves no trace that makes it run (or not run) for another reason.
   impl->currentEpoch = E + 1;
